@@ -337,3 +337,41 @@ M('C04', 'python-shuffle', (INC, """            permutation_chain = [self.featur
 M('C04', 'numpy-shuffle', (INC, """            permutation_chain = [self.feature_names[index] for index in
                                  np.random.permutation(len(self.feature_names))]""", """            permutation_chain = list(self.feature_names)
             np.random.shuffle(permutation_chain)"""), kind='equivalent')
+
+# ---- C13 ---------------------------------------------------------------------------------------
+RIV = 'ixai/utils/wrappers/river.py'
+VLOSS = 'ixai/utils/validators/loss.py'
+M('C13', 'missing-revert', (RIV, "        self._river_metric.revert(y_true=y_true, y_pred=y_prediction)\n", ""))
+M('C13', 'revert-other-arguments', (RIV, "self._river_metric.revert(y_true=y_true, y_pred=y_prediction)", "self._river_metric.revert(y_true=y_true, y_pred=y_true)"))
+M('C13', 'no-sign-flip', (RIV, "            self._sign = -1.", "            self._sign = 1."))
+M('C13', 'inverted-sign-flip', (RIV, 'if hasattr(self._river_metric, "bigger_is_better") and self._river_metric.bigger_is_better:', 'if hasattr(self._river_metric, "bigger_is_better") and not self._river_metric.bigger_is_better:'))
+M('C13', 'validator-probe-not-reverted', (VLOSS, "        _ = river_metric.revert(y_true=0, y_pred=0)\n", ""))
+M('C13', 'last-value-instead-of-output', (RIV, "y_prediction = y_prediction.get('output', 0)", "y_prediction = list(y_prediction.values())[-1]"))
+M('C13', 'revert-every-second-call', (RIV, "        self._river_metric.revert(y_true=y_true, y_pred=y_prediction)\n", "        self._n = getattr(self, '_n', 0) + 1\n        if self._n % 7:\n            self._river_metric.revert(y_true=y_true, y_pred=y_prediction)\n"))
+M('C13', 'reads-value-after-revert', (RIV, "        loss_i = self._river_metric.get()\n        self._river_metric.revert(y_true=y_true, y_pred=y_prediction)\n", "        self._river_metric.revert(y_true=y_true, y_pred=y_prediction)\n        loss_i = self._river_metric.get()\n"))
+M('C13', 'clone-instead-of-revert', (RIV, """        _ = self._river_metric.update(y_true=y_true, y_pred=y_prediction)
+        loss_i = self._river_metric.get()
+        self._river_metric.revert(y_true=y_true, y_pred=y_prediction)
+""", """        import copy as _c
+        _m = _c.deepcopy(self._river_metric)
+        _ = _m.update(y_true=y_true, y_pred=y_prediction)
+        loss_i = _m.get()
+"""), kind='equivalent')
+
+# ---- C14 ---------------------------------------------------------------------------------------
+WB = 'ixai/utils/wrappers/base.py'
+WSK = 'ixai/utils/wrappers/sklearn.py'
+WTO = 'ixai/utils/wrappers/torch.py'
+VMOD = 'ixai/utils/validators/model.py'
+M('C14', 'revert-fix-size-one', (WB, "            if np.size(y_prediction) == 1:  # float() only converts 0-dimensional arrays on recent NumPy versions\n                y_prediction = np.reshape(y_prediction, ())\n", ""))
+M('C14', 'feature-names-ignored-1d', (WB, "        if self._feature_names is not None:\n            x_dict = {feature: x_dict[feature] for feature in self._feature_names}\n", ""))
+M('C14', 'feature-names-sorted-2d', (WB, "                x_input_i = [x_dicts[i][feature] for feature in self._feature_names]", "                x_input_i = [x_dicts[i][feature] for feature in sorted(self._feature_names, key=str)]"))
+M('C14', 'only-first-batch-row-converted', (WSK, "y_prediction = [self.convert_arr_output_to_dict(y_predictions[i]) for i in range(len(y_predictions))]", "y_prediction = [self.convert_arr_output_to_dict(y_predictions[0]) for i in range(len(y_predictions))]"))
+M('C14', 'torch-batch-reversed', (WTO, "        y_prediction = [self.convert_arr_output_to_dict(y_predictions[i]) for i in range(len(y_predictions))]\n        return y_prediction", "        y_prediction = [self.convert_arr_output_to_dict(y_predictions[i]) for i in range(len(y_predictions))]\n        return y_prediction[::-1]"))
+M('C14', 'one-hot-misses-earlier-labels', (RIV, "            output = {label: 0. for label in self._seen_labels}", "            output = {}"))
+M('C14', 'river-seen-labels-shared', (RIV, "        self._seen_labels = set()", "        self._seen_labels = RiverWrapper.__dict__.setdefault('_shared', set()) if False else _SHARED"), (RIV, "class RiverWrapper(Wrapper):", "_SHARED = set()\n\n\nclass RiverWrapper(Wrapper):"))
+M('C14', 'wrapper-rewrapped', (VMOD, "    if isinstance(model_function, Wrapper):\n        return model_function  # we assume the wrapper is applied correctly\n", "    if isinstance(model_function, RiverWrapper):\n        return RiverWrapper(model_function)\n    if isinstance(model_function, Wrapper):\n        return model_function\n"))
+M('C14', 'vector-keys-as-strings', (WB, "y_prediction = {i: y_prediction[i] for i in range(y_prediction.shape[0])}", "y_prediction = {str(i): y_prediction[i] for i in range(y_prediction.shape[0])}"))
+M('C14', 'river-numeric-int-truncation', (RIV, "            return {self.default_label: float(y_prediction)}\n        except ValueError:  # y_prediction is str", "            return {self.default_label: float(int(y_prediction))}\n        except ValueError:  # y_prediction is str"))
+M('C14', 'asarray-size-check-refactor', (WB, "            if np.size(y_prediction) == 1:  # float() only converts 0-dimensional arrays on recent NumPy versions\n                y_prediction = np.reshape(y_prediction, ())\n            return {self.default_label: float(y_prediction)}",
+   "            if np.size(y_prediction) == 1:\n                return {self.default_label: float(np.asarray(y_prediction).ravel()[0])}\n            raise TypeError"), kind='equivalent')
